@@ -272,6 +272,7 @@ class Analysis:
         self.mem_log = []
         self.raw_parts_log = []
         self.facts = []          # affine forms known to be >= 0 (table relations, domain assumptions)
+        self.post_hooks = []     # fn(an, st, callee path, args, ret) -> ret : domain assumptions on call results
         from . import models
         self.models = models
 
@@ -1929,7 +1930,15 @@ class Analysis:
         for a in t["args"]:
             if a.get("o") == "const" and "strlit" in a:
                 return a["strlit"].strip('"')
-        # format-args panics: find the string pieces in the block that built the Arguments
+        # format-args panics: the Arguments value is built by a call in a preceding block
+        locs = {a["l"] for a in t["args"] if a.get("o") in ("copy", "move") and not a["proj"]}
+        if locs:
+            for blk in fn.blocks:
+                tt = blk["term"]
+                if tt["t"] == "call" and tt["dest"]["l"] in locs and not tt["dest"]["proj"]:
+                    for a in tt["args"]:
+                        if a.get("o") == "const" and "strlit" in a:
+                            return a["strlit"].strip('"')
         return t.get("callee", "?")
 
     def do_call(self, st, fid, fn, b, t, depth, record):
